@@ -24,6 +24,7 @@ from typing import Any
 
 VERIF = os.path.dirname(os.path.dirname(os.path.abspath(__file__)))
 MAX_ROOT_CAUSES = 4  # per worker and run
+CHUNK = 15000  # generated cases per Hypothesis run
 SHRINK_CAP_QUICK_S = 25.0
 SHRINK_CAP_THOROUGH_S = 240.0
 
@@ -220,8 +221,9 @@ def _worker(prop: str, tier: str, w: int, nworkers: int, seed: int, budget: int,
                 raise _Violation(d.msg)
 
             test = given(case=strat)(body)
+            # (chunks keep Hypothesis' per-run bookkeeping small; every chunk has its own seed)
             test = settings(
-                max_examples=remaining,
+                max_examples=min(remaining, CHUNK),
                 database=None,
                 deadline=None,
                 derandomize=False,
@@ -253,7 +255,7 @@ def _worker(prop: str, tier: str, w: int, nworkers: int, seed: int, budget: int,
                                                20.0 if tier == "quick" else 120.0)
                 found.append(st8["last"])
                 excluded.append(_escape(st8["last"]["bucket"]))
-            elif not timed_out:
+            elif timed_out:
                 break
             rnd += 1
 
